@@ -13,7 +13,8 @@
         item = T <tag> | E <tag> <size> <A|N|S> <frag> <raw JSON text of the value|->
     result = (R <res> (N 0 | L <escaped log> <cut>) <exceeded>)… (ok | panic:<kind> | fatal)
 
-    c15.pipe <nprocs> <negate> <max> <startRe> <contRe> <nstreams> (<src> <name> <n> item…)…
+    c15.pipe <nprocs> <negate> <max> <startRe> <contRe> <chain> <nstreams> (<src> <name> <n> item…)…
+        chain = string over {v, j}: scripted verdict actions around the real join
         item = P | E <id> <startOK> <contOK> <tree>
     result = <ncalls> call… <nstreams> (<nout> <tree>…)… (ok | stuck)
         call = <instance> (T <tag> | E <id>) R <res> <nprop> (<tag> <tree>)… (N | E <tag> <tree>)
@@ -354,11 +355,23 @@ def handle (cmd : String) (args impl : List String) : Option (String × String) 
     let (max, r) ← pNat r
     let (_, r) ← pBytes r
     let (_, r) ← pBytes r
+    let (chain, r) ← (match r with | c :: r => some (c.toList, r) | [] => none)
     let (ns, r) ← pNat r
     let (streams, r) ← pPipeStreams ns 0 r
     if r ≠ [] then none
     let cfg : Cfg := ⟨[str "log"], max, neg⟩
     let evs := streams.flatten
+    -- the chain: scripted verdict actions `v` around the real join `j`; position k discards an
+    -- event iff character k of its "v" field is 'D'
+    let jpos := (chain.findIdx? (· == 'j')).getD 0
+    let verdict (root : JTree) : Bytes := match JTree.dig root [str "v"] with
+      | some n => asString n
+      | none => []
+    let passes (root : JTree) (lo hi : Nat) : Bool :=
+      (List.range chain.length).all (fun k =>
+        !(lo ≤ k && k < hi && chain[k]? == some 'v' && (verdict root)[k]? == some 68))
+    let upPass (root : JTree) := passes root 0 jpos
+    let downPass (root : JTree) := passes root (jpos + 1) chain.length
     let (calls, r) ← pCounted (pPCall evs) impl
     let (nso, r) ← pNat r
     let (outs, r) ← pMany pTrees nso r
@@ -366,12 +379,16 @@ def handle (cmd : String) (args impl : List String) : Option (String × String) 
     let fin ← match r with
       | ["ok"] => some "ok"
       | ["stuck"] => some "stuck"
+      | ["panic"] => some "panic"
       | _ => none
     -- model: every instance replayed through Join.step; outputs per stream from the spec
     let (toks, ok) := replay cfg [] calls
     let tags := List.range ns
     let perStream := tags.map (fun t => calls.filterMap (fun c => if SpecC15.tagOf c.inp == t then some c.inp else none))
-    let specOuts := perStream.map (fun items => (SpecC15.spec cfg items).map (·.root))
+    -- what must arrive at the output per stream, VALUE and ORDER: the run-grouping spec of the
+    -- calls the join saw for that stream (time-outs where they were observed), minus the events
+    -- a later verdict action discards (a joined event carries the verdict of its start line)
+    let specOuts := perStream.map (fun items => ((SpecC15.spec cfg items).map (·.root)).filter downPass)
     let m := if ok then
         unwords ([toString calls.length] ++ toks ++ [toString ns] ++
           specOuts.map (fun o => unwords (toString o.length :: o.map JTree.enc)) ++ [fin])
@@ -379,9 +396,12 @@ def handle (cmd : String) (args impl : List String) : Option (String × String) 
     -- property oracle on the observed trace
     let views := (instances calls).map (fun i => (calls.filter (·.inst == i)).map (·.inp))
     let hyps := views.all (fun v => SpecC15.coherent cfg none v && SpecC15.timely cfg false v)
-    let order := (tags.zip streams).all (fun (t, evs) => streamIds calls t == evs.map (·.1))
+    -- the join sees, per stream and in read order, exactly the events no earlier action discards
+    let order := (tags.zip streams).all (fun (t, evs) =>
+      streamIds calls t == (evs.filter (fun e => upPass e.2.root)).map (·.1))
     let outsOK := nso == ns && (outs.zip specOuts).all (fun (a, b) => treesEq a b)
     let p := if !hyps then "fail:hypothesis" else if !order then "fail:order"
+             else if fin == "panic" then "fail:panic"
              else if fin != "ok" then "fail:stuck"
              else if !outsOK then "fail:output" else "ok"
     pure (m, p)
